@@ -222,12 +222,25 @@ func buildC01(tier string) *core.Plan {
 	children := gen.Trees(c01ChildA, nChild)
 	np, nc := int64(len(parents)), int64(len(children))
 
-	product := core.Space{Name: fmt.Sprintf("product-parents%d-children%d", nParent, nChild), N: np * nc,
+	if tier != "thorough" {
+		// quick: all parents up to 3 nodes x all children up to 3 nodes here; the 4-node parents meet the children up to 2 nodes below
+		parents = gen.Trees(c01ParentA, 3)
+		np = int64(len(parents))
+	}
+	product := core.Space{Name: fmt.Sprintf("product-parents%d-children%d", map[bool]int{true: nParent, false: 3}[tier == "thorough"], nChild), N: np * nc,
 		Desc: func(i int64) any { return map[string]any{"parent": parents[i/nc], "child": children[i%nc]} },
 		Run: func(c *core.Ctx, i int64) {
 			c01Pair(c, "refMerge", parents[i/nc], children[i%nc])
 		}}
 
+	bigParents := gen.TreesExact(c01ParentA, 4)
+	smallChildren := gen.Trees(c01ChildA, 2)
+	nsc := int64(len(smallChildren))
+	product4 := core.Space{Name: "product-parents=4-children2", N: int64(len(bigParents)) * nsc,
+		Desc: func(i int64) any { return map[string]any{"parent": bigParents[i/nsc], "child": smallChildren[i%nsc]} },
+		Run: func(c *core.Ctx, i int64) {
+			c01Pair(c, "refMerge", bigParents[i/nsc], smallChildren[i%nsc])
+		}}
 	lp, le := c01ListParents(), c01ListEdits()
 	// children of the list space: 1 or 2 edit entries
 	nle := int64(len(le))
@@ -289,6 +302,65 @@ func buildC01(tier string) *core.Plan {
 		Run: func(c *core.Ctx, i int64) {
 			c01Pair(c, "refMerge-list", shapeParents[i/nse], []any{shapeEdits[i%nse]})
 			c01Pair(c, "refMerge-list", map[string]any{"l": shapeParents[i/nse]}, map[string]any{"l": []any{shapeEdits[i%nse]}})
+		}}
+
+	// fan-out then single edit: one layer's list $match hits two entries and brings in containers,
+	// the next layer edits what arrived in ONE of them (entries must not share what they received)
+	foParents := []any{
+		map[string]any{"l": []any{map[string]any{"k": 1, "id": 1, "sub": []any{0}}, map[string]any{"k": 1, "id": 2, "sub": []any{0}}}},
+		[]any{map[string]any{"k": 1, "id": 1, "sub": []any{0}, "m": map[string]any{"o": 1}}, map[string]any{"k": 1, "id": 2, "sub": []any{0}, "m": map[string]any{"o": 1}}, map[string]any{"k": 2, "id": 3}},
+	}
+	foBodies := []map[string]any{
+		{"sub": []any{map[string]any{"x": 1}}},
+		{"new": map[string]any{"x": 1}},
+		{"new": []any{map[string]any{"x": 1}, []any{map[string]any{"x": 1}}}},
+		{"m": map[string]any{"deep": map[string]any{"x": 1}, "dl": []any{map[string]any{"x": 1}}}},
+		{"sub": []any{[]any{map[string]any{"x": 1}}}},
+		{"m": map[string]any{"$replace": true, "x": map[string]any{"y": 1}}},
+	}
+	foEdits := []map[string]any{
+		{"sub": []any{map[string]any{"$match": map[string]any{"x": 1}, "y": 2}}},
+		{"new": map[string]any{"y": 2}},
+		{"new": []any{map[string]any{"$match": map[string]any{"x": 1}, "y": 2}}},
+		{"m": map[string]any{"deep": map[string]any{"y": 2}}},
+		{"m": map[string]any{"dl": []any{map[string]any{"$match": map[string]any{"x": 1}, "y": 2}}}},
+		{"sub": []any{map[string]any{"$delete": map[string]any{"x": 1}}}},
+		{"m": map[string]any{"x": map[string]any{"z": 3}}},
+		{"new": "$delete"},
+	}
+	nfb, nfe := int64(len(foBodies)), int64(len(foEdits))
+	fanout := core.Space{Name: "fanout-then-single-edit", N: int64(len(foParents)) * nfb * nfe,
+		Desc: func(i int64) any {
+			return map[string]any{"parent": foParents[i/(nfb*nfe)], "fanout_body": foBodies[(i/nfe)%nfb], "single_edit": foEdits[i%nfe]}
+		},
+		Run: func(c *core.Ctx, i int64) {
+			parent := foParents[i/(nfb*nfe)]
+			body, edit := foBodies[(i/nfe)%nfb], foEdits[i%nfe]
+			wrap := func(sel map[string]any, b map[string]any) any {
+				e := core.Clone(b).(map[string]any)
+				e["$match"] = sel
+				if _, isList := parent.([]any); isList {
+					return []any{e}
+				}
+				return map[string]any{"l": []any{e}}
+			}
+			l1 := wrap(map[string]any{"k": 1}, body)
+			for _, id := range []int{1, 2} {
+				l2 := wrap(map[string]any{"id": id}, edit)
+				r := newC01Run()
+				err, res := r.add(parent, false)
+				if err != nil || res.V != ref.Accept {
+					return
+				}
+				wit := core.Canon(parent) + " <- " + core.Canon(l1)
+				err, res = r.add(l1, true)
+				if !r.compare(c, "refMerge-fanout", wit, err, res) {
+					continue
+				}
+				wit += " <- " + core.Canon(l2)
+				err, res = r.add(l2, true)
+				r.compare(c, "refMerge-fanout", wit, err, res)
+			}
 		}}
 
 	// chains: parent + up to chainDepth further layers, each listing all earlier layers as parents
@@ -354,7 +426,13 @@ func buildC01(tier string) *core.Plan {
 		}}
 
 	return &core.Plan{
-		Spaces: []core.Space{product, listSpace, shapeSpace, chain, files},
+		Spaces: func() []core.Space {
+			sp := []core.Space{product, listSpace, shapeSpace, fanout, chain, files}
+			if tier != "thorough" {
+				sp = append(sp, product4)
+			}
+			return sp
+		}(),
 		Rule: "all (parent, child) pairs of trees up to the node bounds over the directive alphabet; all list parents of <=3 entries x all child lists of <=2 directive entries; " +
 			"all chains of up to depth further layers; every case is distinct by construction. non-trivial = the model rejects, or the model accepts and the merged output was compared",
 		Assumptions: []string{"reference semantics ref.Merge/ref.Match/ref.Stream/ref.Final (DESIGN Appendix A) is the oracle",
